@@ -705,4 +705,19 @@ def main():
 
 
 if __name__ == '__main__':
-    sys.exit(main())
+    # exit 1 is reserved for "a violation was observed and a VIOLATION line was printed": anything that goes wrong inside the
+    # driver itself (missing tree, I/O error, a bug) must come out as 2 = inconclusive, never as Python's default exit status 1
+    try:
+        rc = main()
+    except SystemExit as e:
+        rc = e.code if isinstance(e.code, int) else 2
+        if rc == 1:
+            rc = 2
+    except KeyboardInterrupt:
+        rc = 2
+    except BaseException:
+        import traceback
+        traceback.print_exc()
+        print('INCONCLUSIVE driver error: ' + repr(sys.exc_info()[1])[:300])
+        rc = 2
+    sys.exit(rc)
